@@ -88,15 +88,16 @@ const (
 	siteDottedMiddle
 	siteStructTag
 	siteSetter
+	siteUnpackTag
 	numC20Sites
 )
 
 func (s c20Site) String() string {
-	return [...]string{"single map key", "last segment of a dotted key", "first segment of a dotted key", "middle segment of a dotted key", "struct tag", "name argument of SetString/String/Has/Remove"}[s]
+	return [...]string{"single map key", "last segment of a dotted key", "first segment of a dotted key", "middle segment of a dotted key", "struct tag", "name argument of SetString/String/Has/Remove", "struct tag of an Unpack target"}[s]
 }
 
 func c20Space(name string, strs []string) *core.Space {
-	maxIdxs := []int64{1024, 0, 1, 5}
+	maxIdxs := []int64{1024, 0, 1, 5, -1}
 	radices := []int{len(strs), len(maxIdxs), 2, int(numC20Sites)}
 	dec := func(i int) (string, int64, bool, c20Site) {
 		d := mixedRadix(i, radices...)
@@ -115,7 +116,7 @@ func c20Space(name string, strs []string) *core.Space {
 			if dotted && strings.Contains(s, ".") {
 				return core.Result{Skipped: true} // the string would be split into several segments
 			}
-			if site == siteStructTag && (strings.ContainsAny(s, ",\"`") || s == "") {
+			if (site == siteStructTag || site == siteUnpackTag) && (strings.ContainsAny(s, ",\"`") || s == "") {
 				return core.Result{Skipped: true}
 			}
 			// oracle
@@ -152,6 +153,15 @@ func c20Space(name string, strs []string) *core.Space {
 				case siteSetter:
 					cfg = ucfg.New()
 					err = cfg.SetString(s, -1, "v", opts...)
+				case siteUnpackTag:
+					cfg, err = ucfg.NewFrom(M{s: "v"}, opts...)
+					if err == nil {
+						st := reflect.New(reflect.StructOf([]reflect.StructField{{Name: "F", Type: reflect.TypeOf(""), Tag: reflect.StructTag(fmt.Sprintf(`config:"%s"`, s))}}))
+						if uerr := cfg.Unpack(st.Interface(), opts...); uerr != nil || st.Elem().Field(0).String() != "v" {
+							res = core.Fail("c20", "UNPACK-TAG "+fmt.Sprintf("numkeys=%v", numKeys)+" "+keyClass(s, perr, v, maxIdx), fmt.Sprintf("config built from key %q, Unpack into a field tagged %q under the same options gives (%q, %v)", s, s, st.Elem().Field(0).String(), uerr))
+							return
+						}
+					}
 				}
 				cls := fmt.Sprintf("%v numkeys=%v", site, numKeys)
 				if err != nil {
@@ -213,7 +223,7 @@ func c20Space(name string, strs []string) *core.Space {
 					var got string
 					var err error
 					switch {
-					case site == siteSetter || site == siteMapKey || site == siteStructTag:
+					case site == siteSetter || site == siteMapKey || site == siteStructTag || site == siteUnpackTag:
 						got, err = cfg.String(s, -1, opts...)
 						if err == nil && site == siteSetter {
 							has, herr := cfg.Has(s, -1, opts...)
@@ -265,7 +275,7 @@ func init() {
 	core.Register(&core.Check{
 		ID:    "C20",
 		Level: "exploration",
-		Rule:  "every string of length <=4 (thorough <=5) over {0,1,9,_,x,b,o,+,-,.,a,blank} plus the decimal, signed, hex, octal, binary, zero-padded, underscored and near-numeric spellings of {MaxIdx-1, MaxIdx, MaxIdx+1, 2^31, 2^63-1, 2^63, 2^64-1, ...} x MaxIdx in {1024, 0, 1, 5} x EnableNumKeys x 6 use sites (single map key; first, middle, last segment of a dotted key; struct tag; name argument of SetString/String/Has/Remove). Oracle: index <=> not(EnableNumKeys and single segment) and ParseInt(s,0,64) in [0,MaxIdx]; index => list of exactly v+1 entries, value at v, nils in front; otherwise a dict whose only field is s unchanged and which reads back under s; no list part longer than MaxIdx+1 anywhere (reflective walker); non-trivial = the string parses as an integer or contains a digit",
+		Rule:  "every string of length <=4 (thorough <=5) over {0,1,9,_,x,b,o,+,-,.,a,blank} plus the decimal, signed, hex, octal, binary, zero-padded, underscored and near-numeric spellings of {MaxIdx-1, MaxIdx, MaxIdx+1, 2^31, 2^63-1, 2^63, 2^64-1, ...} x MaxIdx in {1024, 0, 1, 5, -1} x EnableNumKeys x 7 use sites (single map key; first, middle, last segment of a dotted key; struct tag of a merge source; struct tag of an Unpack target; name argument of SetString/String/Has/Remove). Oracle: index <=> not(EnableNumKeys and single segment) and ParseInt(s,0,64) in [0,MaxIdx]; index => list of exactly v+1 entries, value at v, nils in front; otherwise a dict whose only field is s unchanged and which reads back under s; no list part longer than MaxIdx+1 anywhere (reflective walker); non-trivial = the string parses as an integer or contains a digit",
 		Assumptions: []string{
 			"strings containing the separator are skipped at dotted use sites (they are several segments); strings that cannot be written into a struct tag are skipped there",
 		},
